@@ -5,15 +5,19 @@
    thread's final put freed every node (count back to exactly 1: no update lost), and every
    destruction callback ran exactly once.  "seed" - threads racing on the first use of the key hash
    with DIFFERENT seed candidates: every thread, early and late, and the main thread later,
-   computed the same hash.  "disjoint" - threads on private trees did not interfere. *)
+   computed the same hash.  "disjoint" - threads on private trees did not interfere.  "lastrefs" - the last T references
+   of a node released by T threads at the same instant: one destruction, one 'freed' report per round. *)
 EXTENDS Naturals, Integers, Sequences, TLC, Json, IOUtils
 VARIABLES st, l
 All(s, v) == \A i \in 1..Len(s) : s[i] = v
 CounterOk(r) == /\ Len(r.gets) = r.threads /\ All(r.gets, r.ops) /\ All(r.puts, r.ops)
                 /\ All(r.destroyed_before_final, 0) /\ All(r.final_put, 1) /\ All(r.destroyed, 1)
 SeedOk(r) == r.all_same_full_width /\ All(r.early, r.main) /\ All(r.late, r.main)
+\* the last references of a node, one per thread, released at the same instant: destroyed exactly once per round,
+\* and exactly one of the puts reported it
+LastRefsOk(r) == r.destroyed = r.rounds /\ r.freed_reports = r.rounds /\ r.bad_rounds = 0
 DisjointOk(r) == All(r.consistent, 1) /\ All(r.freed, 1)
-StepOfImpl(s, r) == [ok |-> CASE r.e = "counter" -> CounterOk(r) [] r.e = "seed" -> SeedOk(r) [] r.e = "disjoint" -> DisjointOk(r) [] OTHER -> FALSE, st |-> s]
+StepOfImpl(s, r) == [ok |-> CASE r.e = "counter" -> CounterOk(r) [] r.e = "seed" -> SeedOk(r) [] r.e = "disjoint" -> DisjointOk(r) [] r.e = "lastrefs" -> LastRefsOk(r) [] OTHER -> FALSE, st |-> s]
 TraceLog == ndJsonDeserialize(IOEnv.TRACE)
 T == INSTANCE TraceBase WITH Log <- TraceLog, InitSt <- 0, StepOf <- StepOfImpl, ResyncAtNew <- FALSE
 Spec == T!Spec
